@@ -8,12 +8,13 @@ import RedisVerif.Model.Stream
     PUSH <key> <rv>                                     → ok pending=<n>
     FLUSH <sz>                                          → ok empty calls=<c> | ok seg=<id> n=<k> pending=<n> calls=<c>
                                                           | err pending=<n> calls=<c>
-    COMPACT <target> <min> <maxper> <cutoff> <sz>       → nothing|err|cleaned [ids]|emptied [ids] tombs=<n>|
+    COMPACT <target> <min> <maxper> <now> <ttlms> <sz>     → nothing|err|cleaned [ids]|emptied [ids] tombs=<n>|
                                                           compacted [ids] -> <id> n=<k> tombs=<n>   (+ calls=<c>)
     REC                                                 → recovery of the current store image
-    INTERLEAVE <target> <min> <maxper> <cutoff> <szc> <szf> → a compaction with one whole flush (of the current
+    INTERLEAVE <target> <min> <maxper> <now> <ttlms> <szc> <szf> → a compaction with one whole flush (of the current
                                                           buffer) between its reads and its writes:
                                                           flush=<..> compact=<..> calls=<c>          (C13)
+    RESTART <c> <0|1>                                   → a new process on the crash image of call c (then ops as usual)
     CRASH <c> <0|1>                                     → the recorded workload re-run with the process dying at
                                                           store call c (1: inside a put, leaving a torn object):
                                                           recovery of the store image + refs=<0|1>
@@ -22,13 +23,19 @@ namespace RedisVerif.Driver.C12
 open RedisVerif RedisVerif.Driver RedisVerif.Stream
 
 structure St where
+  /-- the store the recorded workload started from (empty, or a crash image after `RESTART`) -/
+  base : Store
   rid : Nat
   faults : List (Nat × Fault)
   ops : List Op
   sys : Sys
+  /-- the workload and faults of the last `NEW` case (what `RESTART` crashes) -/
+  rootFaults : List (Nat × Fault)
+  rootOps : List Op
+  restarted : Bool
   deriving Inhabited
 
-def init : St := { rid := 0, faults := [], ops := [], sys := Sys.init [] 0 }
+def init : St := { base := [], rid := 0, faults := [], ops := [], sys := Sys.init [] 0, rootFaults := [], rootOps := [], restarted := false }
 
 def oracleOf (faults : List (Nat × Fault)) : Oracle := fun n =>
   match faults.lookup n with
@@ -92,7 +99,7 @@ def step (s : St) (line : String) : St × String :=
   | "NEW" :: r :: nf :: rest =>
     match r.toNat?, nf.toNat?, parseFaults rest with
     | some rid, some n, some fs =>
-      if fs.length = n then ({ rid := rid, faults := fs, ops := [], sys := Sys.init [] rid }, "ok")
+      if fs.length = n then ({ base := [], rid := rid, faults := fs, ops := [], sys := Sys.init [] rid, rootFaults := fs, rootOps := [], restarted := false }, "ok")
       else (s, "bad-op")
     | _, _, _ => (s, "bad-op")
   | ["FLUSH", a] =>
@@ -105,21 +112,21 @@ def step (s : St) (line : String) : St × String :=
         | .empty => s!"ok empty calls={sys'.w.calls}"
         | .flushed id n => s!"ok seg={id} n={n} pending={sys'.p.buffer.length} calls={sys'.w.calls}"
         | .error => s!"err pending={sys'.p.buffer.length} calls={sys'.w.calls}"
-      ({ s with sys := sys', ops := s.ops ++ [.flush sz] }, o)
+      ({ s with sys := sys', ops := s.ops ++ [.flush sz], rootOps := if s.restarted then s.rootOps else s.rootOps ++ [.flush sz] }, o)
     | none => (s, "bad-op")
-  | ["COMPACT", a, b, c, d, e] =>
-    match a.toNat?, b.toNat?, c.toNat?, d.toNat?, e.toNat? with
-    | some target, some mn, some mx, some cutoff, some sz =>
-      let cfg : CompactCfg := { target := target, minSegs := mn, maxPer := mx, cutoff := cutoff }
+  | ["COMPACT", a, b, c, d, d2, e] =>
+    match a.toNat?, b.toNat?, c.toNat?, d.toNat?, d2.toNat?, e.toNat? with
+    | some target, some mn, some mx, some now, some ttl, some sz =>
+      let cfg : CompactCfg := { target := target, minSegs := mn, maxPer := mx, now := now, ttlMs := ttl }
       let F := oracleOf s.faults
       let r := compactWith current.compact F cfg sz s.sys.w
       let sys' := stepWith current F s.sys (.compact cfg sz)
-      ({ s with sys := sys', ops := s.ops ++ [.compact cfg sz] }, s!"{showCompact r.2} calls={sys'.w.calls}")
-    | _, _, _, _, _ => (s, "bad-op")
-  | ["INTERLEAVE", a, b, c, d, e, f] =>
-    match a.toNat?, b.toNat?, c.toNat?, d.toNat?, e.toNat?, f.toNat? with
-    | some target, some mn, some mx, some cutoff, some szc, some szf =>
-      let cfg : CompactCfg := { target := target, minSegs := mn, maxPer := mx, cutoff := cutoff }
+      ({ s with sys := sys', ops := s.ops ++ [.compact cfg sz], rootOps := if s.restarted then s.rootOps else s.rootOps ++ [.compact cfg sz] }, s!"{showCompact r.2} calls={sys'.w.calls}")
+    | _, _, _, _, _, _ => (s, "bad-op")
+  | ["INTERLEAVE", a, b, c, d, d2, e, f] =>
+    match a.toNat?, b.toNat?, c.toNat?, d.toNat?, d2.toNat?, e.toNat?, f.toNat? with
+    | some target, some mn, some mx, some now, some ttl, some szc, some szf =>
+      let cfg : CompactCfg := { target := target, minSegs := mn, maxPer := mx, now := now, ttlMs := ttl }
       let F := oracleOf s.faults
       let r := compactInterleaved current.restoreBuffer current.compact F cfg szc s.sys.w (some (s.sys.p, szf))
       let fo := match r.2.2 with
@@ -131,15 +138,25 @@ def step (s : St) (line : String) : St × String :=
         | .error => if current.restoreBuffer then s.sys.p else { s.sys.p with buffer := [] }
         | .empty => s.sys.p
       ({ s with sys := { s.sys with w := r.1, p := p' } }, s!"flush={fo} compact={showCompact r.2.1} calls={r.1.calls}")
-    | _, _, _, _, _, _ => (s, "bad-op")
+    | _, _, _, _, _, _, _ => (s, "bad-op")
   | ["REC"] => (s, showRec (recover s.sys.w.store s.rid))
   | ["CRASH", a, b] =>
     match a.toNat?, b.toNat? with
     | some c, some p =>
       let F := oracleOf s.faults
       let F' : Oracle := fun n => if n = c then (if p != 0 then .crashPartial else .crash) else F n
-      let sys' := runWith current F' (Sys.init [] s.rid) s.ops
+      let sys' := runWith current F' (Sys.init s.base s.rid) s.ops
       (s, s!"{showRec (recover sys'.w.store s.rid)} refs={b01 (refsComplete sys'.w.store)}")
+    | _, _ => (s, "bad-op")
+  | ["RESTART", a, b] =>
+    -- the process died at store call c of the recorded workload; a NEW process starts on the
+    -- store image that is left (empty buffer, no faults from here on)
+    match a.toNat?, b.toNat? with
+    | some c, some p =>
+      let F := oracleOf s.rootFaults
+      let F' : Oracle := fun n => if n = c then (if p != 0 then .crashPartial else .crash) else F n
+      let img := (runWith current F' (Sys.init [] s.rid) s.rootOps).w.store
+      ({ s with base := img, faults := [], ops := [], sys := Sys.init img s.rid, restarted := true }, "ok")
     | _, _ => (s, "bad-op")
   | "PUSH" :: _ =>
     let p : P Delta := do
@@ -150,7 +167,7 @@ def step (s : St) (line : String) : St × String :=
     match runP p line with
     | some d =>
       let sys' := stepWith current (oracleOf s.faults) s.sys (.push d)
-      ({ s with sys := sys', ops := s.ops ++ [.push d] }, s!"ok pending={sys'.p.buffer.length}")
+      ({ s with sys := sys', ops := s.ops ++ [.push d], rootOps := if s.restarted then s.rootOps else s.rootOps ++ [.push d] }, s!"ok pending={sys'.p.buffer.length}")
     | none => (s, "bad-op")
   | _ => (s, "bad-op")
 
